@@ -371,6 +371,58 @@ def b2(pid, tier, seed, wd, rep):
     return stats
 
 
+def hook_validation(pid, tier, seed, wd, rep):
+    """traces written by the cfg-guarded hooks inside the crate (complete internal state after every call): the
+    repository's own agent tests, and random histories driven through a hooked build of the adapter.  Best effort."""
+    import hooklib
+    st = dict(repo_test_agents=0, repo_test_lines=0, random_histories=0, random_lines=0, rejected=0, notes=[])
+    def judge(hists_by_transport, label):
+        n_h = n_l = 0
+        for transport, hists in hists_by_transport.items():
+            if not hists:
+                continue
+            acc, rejected, nlines, runs = hooklib.validate(hists, transport, wd, label)
+            n_h += acc
+            n_l += nlines
+            for key, line in rejected:
+                st["rejected"] += 1
+                props = B2_OWNER.get(line["ev"], AGENT_PROPS)
+                what = "%s (agent %s): the crate's own trace is not a behaviour of the specification at %s" % (label, key, json.dumps(line)[:400])
+                if pid in props:
+                    rep.violation(what, {"kind": "hook_trace", "label": label, "line": line})
+                else:
+                    for p in props:
+                        rep.note_foreign(p)
+        return n_h, n_l
+    trace, note = hooklib.run_repo_tests_hooked(wd)
+    if trace is None:
+        st["notes"].append(note)
+    else:
+        h = hooklib.convert(trace)
+        st["repo_test_agents"], st["repo_test_lines"] = judge(h, "repository unit tests")
+    hb = hooklib.build_hooked_harness()
+    if hb is None:
+        st["notes"].append("hooked adapter does not build on this tree (skipped)")
+    else:
+        nh = 60 if tier == "quick" else 1200
+        for transport in ("udp", "tcp"):
+            rng = random.Random(seed * 7 + (3 if transport == "udp" else 4))
+            scripts = [rand_history(rng, "%s/k%d" % (transport, i), transport, 80) for i in range(nh if transport == "udp" else nh // 2)]
+            files = []
+            run_scripts(scripts, wd, "hook" + transport, binary=hb, hook_trace=files)
+            hists = {"udp": [], "tcp": []}
+            for fp in files:
+                if os.path.exists(fp):
+                    c = hooklib.convert(fp)
+                    for k in c:
+                        hists[k] += c[k]
+                    os.remove(fp)
+            a, b = judge(hists, "random histories (hooked adapter)")
+            st["random_histories"] += a
+            st["random_lines"] += b
+    return st
+
+
 # --------------------------------------------------------------------------- entry
 def run(pid, tier, seed):
     rep = Report(pid, tier, seed, "model_checking")
@@ -392,6 +444,7 @@ def run(pid, tier, seed):
         with cf.ProcessPoolExecutor(max_workers=8 if tier == "quick" else 4) as pex:
             pf = [pex.submit(b1_model, pid, tier, seed, model, wd) for model in models]
             b2stats = b2(pid, tier, seed, wd, rep)
+            hookstats = hook_validation(pid, tier, seed, wd, rep)
             for f in pf:
                 st = f.result()
                 for props, what, replay in st.pop("findings"):
@@ -409,7 +462,7 @@ def run(pid, tier, seed):
     for st in b1stats:
         states += st["tlc_distinct"]
         transitions += st["tlc_generated"]
-    traces = sum(s["scripts"] for s in b1stats) + b2stats["histories"]
+    traces = sum(s["scripts"] for s in b1stats) + b2stats["histories"] + hookstats["repo_test_agents"] + hookstats["random_histories"]
     samples = [s["sample"] for s in b1stats if s.get("sample")][:3]
     # non-vacuity: every kind of reply occurred on the LTS edges that were driven
     labels = {}
@@ -424,7 +477,7 @@ def run(pid, tier, seed):
     rep.add_cov(states=states, transitions=transitions, traces_validated_against_impl=traces, samples=samples,
                 model_checking=mcstats,
                 lts_replay=[{k: s[k] for k in ("model", "lts_states", "lts_edges", "scripts", "steps", "truncated", "nondet_scripts", "mismatches", "t")} for s in b1stats],
-                trace_validation=b2stats, edge_labels_driven=labels,
+                trace_validation=b2stats, hook_trace_validation=hookstats, edge_labels_driven=labels,
                 rule="B1: every (state,input) pair of each dumped LTS (tour) + all input words to depth %d + random walks, executed on the real StunAgent under several time scales/algorithms and followed through the LTS; B2: random histories with real ms values validated by TLC against StunAgentTrace" % (3 if tier == "quick" else 4))
     rep.assumptions += ["HMAC validity is abstracted to key identity in the agent model (byte-level truth is C04)",
                         "bounded models: 2 concurrent transactions, short schedules, small clock; beyond that sampled by B2",
